@@ -63,6 +63,26 @@ func (c *Ctx) lbSpec() *Spec {
 	}
 }
 
+// proxyFn: the (outermost) function of the balancer from which a backend's ReverseProxy is invoked —
+// proxyRequest today; whatever function that code lives in after a refactor.
+func (c *Ctx) proxyFn() *ssa.Function {
+	p := c.P
+	var out *ssa.Function
+	for _, fn := range p.Funcs {
+		if !p.InScope(fn) {
+			continue
+		}
+		for _, ci := range callsIn(fn) {
+			if CalleeName(ci) == "(*net/http/httputil.ReverseProxy).ServeHTTP" {
+				if o := outermost(fn); out == nil || o.Name() < out.Name() {
+					out = o
+				}
+			}
+		}
+	}
+	return out
+}
+
 func checkC13(c *Ctx) {
 	p := c.P
 	c.Clause("every exit path of LoadBalancer.ServeHTTP (normal and panic) records the request exactly once, first")
@@ -127,9 +147,21 @@ func checkC13(c *Ctx) {
 			}
 			return cx, ""
 		})
-	proxy := p.Fn("internal/loadbalancer", "LoadBalancer", "proxyRequest")
+	proxy := c.proxyFn()
 	byExit := func(f func(t *Trace) string) func(t *Trace) (string, string) {
 		return func(t *Trace) (string, string) {
+			if !t.Has("proxy") && !t.Has("panic-in:(*net/http/httputil.ReverseProxy).ServeHTTP") {
+				// a path of the same function that does not forward (no healthy backend): nothing to pair
+				if t.Count("inc") != 0 || t.Count("dec") != 0 {
+					return "not-proxied", "the in-flight gauge is changed on a path that forwards nothing"
+				}
+				for _, it := range t.Items {
+					if strings.HasPrefix(it.Label, "record-backend(") {
+						return "not-proxied", "a per-backend sample is recorded on a path that forwards nothing"
+					}
+				}
+				return "not-proxied", ""
+			}
 			if t.Exit == ExitPanic {
 				return "panic-exit", f(t)
 			}
@@ -249,8 +281,8 @@ func (c *Ctx) gaugeWriters() {
 			n := CalleeName(ci)
 			if strings.HasSuffix(n, "Backend).IncrementConnections") || strings.HasSuffix(n, "Backend).DecrementConnections") {
 				nCalls++
-				if outermost(fn).Name() != "proxyRequest" {
-					bad = append(bad, p.InstrPos(ci)+": "+p.FuncKey(fn)+" changes a backend's in-flight gauge outside proxyRequest")
+				if outermost(fn) != c.proxyFn() {
+					bad = append(bad, p.InstrPos(ci)+": "+p.FuncKey(fn)+" changes a backend's in-flight gauge outside the function that forwards the request")
 				}
 			}
 			if strings.HasSuffix(n, "MetricsCollector).UpdateBackendConnections") {
